@@ -536,7 +536,7 @@ def takes_ownership(fx, callee_key, j, depth=0):
                 res = True
             elif k == 'BinaryOperator' and u['op'] == '=' and isv(u['c'][1]):
                 l = f.strip(u['c'][0])
-                if l['k'] == 'DeclRefExpr' and l.get('dk') in ('Var', 'ParmVar') and not (l.get('t') or '').rstrip().endswith('&'):
+                if l['k'] == 'DeclRefExpr' and l.get('dk') in ('Var', 'ParmVar') and not (l.get('dt') or l.get('t') or '').rstrip().endswith('&'):
                     if l.get('vid') is not None:
                         vids.add(l['vid'])
                 else:
@@ -639,7 +639,7 @@ def ownlocal(run, fx, reach_q):
                         while r['k'] == 'BinaryOperator' and r['op'] == '=':
                             r = fn.strip(r['c'][0])
                         if r['k'] == 'DeclRefExpr' and r.get('vid') in vids and l['k'] == 'DeclRefExpr' and l.get('dk') in ('Var', 'ParmVar') \
-                                and l.get('vid') is not None and not (l.get('t') or '').rstrip().endswith('&'):
+                                and l.get('vid') is not None and not (l.get('dt') or l.get('t') or '').rstrip().endswith('&'):
                             vids.add(l['vid'])
                     elif u['k'] == 'DeclStmt':
                         for d_ in u['decls']:
@@ -680,8 +680,8 @@ def ownlocal(run, fx, reach_q):
                             uses = True
                 elif k == 'BinaryOperator' and u['op'] == '=' and rvalue_use(u['c'][1]):
                     l = fn.strip(u['c'][0])
-                    if not (l['k'] == 'DeclRefExpr' and l.get('vid') in vids):
-                        uses = True
+                    if not (l['k'] == 'DeclRefExpr' and l.get('vid') in vids) or (l.get('dt') or '').rstrip().endswith('&'):
+                        uses = True          # a store through a reference local reaches the object it is bound to
                 elif k == 'Init' and u.get('init') is not None and any(isv(x) for x in fn.walk(u['init'])):
                     uses = True
                 elif k == 'CXXNewExpr' and u.get('place') and any(p is not None and any(isv(x) for x in fn.walk(p)) for p in u['place']):
